@@ -36,6 +36,7 @@ def one(ctx, pts, kind, queries, family):
     tss = float(np.sum(np.square(y - np.mean(y))))
     shared = {}
     hits = 0
+    shared_vals = []
     for qi, red in enumerate(queries):
         before = set(shared.keys())
         try:
@@ -45,6 +46,7 @@ def one(ctx, pts, kind, queries, family):
         except Exception as e:
             ctx.fail('predicate', 'completes', site, case, repr(e)[:200])
             return
+        shared_vals.append(vs)
         hits += sum(1 for a, b in zip(red, red[1:]) if (a, b) in before)
         if not (vs == vf == vn) and not all(math.isnan(v) for v in (vs, vf, vn)):
             ctx.fail('predicate', 'shared-cache-value-bit-identical-to-fresh-cache', site, case, dict(query=qi, shared=vs, fresh=vf, default_cache=vn))
@@ -82,6 +84,26 @@ def one(ctx, pts, kind, queries, family):
                         break
         else:
             ctx.tag('oracle-nonfinite')
+    # the WHOLE history through the model's cache state machine (runShared: lookupSeg / evalSegs / evalShared, the subject of runShared_eq_fresh),
+    # fed with the package's own per-segment partial costs: value of every query of the shared-cache run
+    if len(shared_vals) == len(queries):
+        tbl = {}
+        for red in queries:
+            for a, b in zip(red, red[1:]):
+                if (a, b) not in tbl:
+                    pt = pts[a:b + 1]
+                    tbl[(a, b)] = 0.0 if len(pt) <= 2 else float(ev.compute_partial_cost(pt[:, 1], lf.linear_fit_transform_points(pt), cost))
+        if tbl and all(math.isfinite(v) for v in tbl.values()) and all(math.isfinite(v) for v in shared_vals):
+            out = d.call('gshared', [kind, str(n), core.rat(tss), ';'.join(core.nats(q) for q in queries),
+                                     ','.join(f'{a}:{b}:{core.rat(v)}' for (a, b), v in tbl.items())])
+            mv = core.parse_rats(out[0]) if out else []
+            ctx.corr_checked += 1
+            for qi, (real_v, q) in enumerate(zip(shared_vals, mv)):
+                real_c = real_v * real_v if kind in ('rmsle', 'rmspe') else real_v
+                if not close(real_c, q, 1e-12, 1e-300):
+                    ctx.fail('correspondence', 'runShared (cache state machine over the whole query history) vs the shared-cache run', site, case,
+                             dict(query=qi, impl=real_c, model=float(q)))
+                    break
     # cache contents must equal fresh values
     for key, val in shared.items():
         if not (isinstance(key, tuple) and len(key) == 2):
